@@ -326,7 +326,7 @@ func (s *Schema) control() (err error) {
 
 	// controlling index in memory
 	if err = s.ObjectIndex.control(); err != nil {
-		return
+		return fmt.Errorf("%s %w: %s", typeof(s.object), ErrIndexCorrupted, err)
 	}
 
 	// verifying index integrity (longer process so done at last)
